@@ -530,6 +530,9 @@ func runRoCase(x *acCtx, c *acCase) {
 						continue
 					}
 					m := checkRoFront(c, f, ans, ixIdent, whole)
+					if rb, ok := f.(*roBS); ok && m == "" && sup == "none" {
+						m = roRefusesWrites(rb.b, path, file, fr == "blockstore.OpenReadOnly")
+					}
 					f.Close()
 					if m != "" {
 						x.viol("readonly/answers/"+fr, c, tag+": "+m, map[string]any{"mode": "ro"})
@@ -538,6 +541,43 @@ func runRoCase(x *acCtx, c *acCase) {
 			}
 		}
 	}
+}
+
+// roRefusesWrites: a read-only blockstore refuses every write without touching the file; once closed it
+// answers no lookup of a non-identity key.
+func roRefusesWrites(b *blockstore.ReadOnly, path string, file []byte, onDisk bool) string {
+	blk := mkBlock(alphaByID["b2"])
+	if err := b.Put(bg, blk); err == nil {
+		return "Put on a read-only blockstore returned nil"
+	}
+	if err := b.PutMany(bg, []blocks.Block{blk}); err == nil {
+		return "PutMany on a read-only blockstore returned nil"
+	}
+	if err := b.DeleteBlock(bg, blk.Cid()); err == nil {
+		return "DeleteBlock on a read-only blockstore returned nil"
+	}
+	if onDisk {
+		if now, err := os.ReadFile(path); err != nil || !bytes.Equal(now, file) {
+			return "refused writes changed the file of a read-only blockstore"
+		}
+	}
+	if err := b.Close(); err != nil {
+		return "Close of a read-only blockstore failed: " + err.Error()
+	}
+	q := alphaByID["b1"].Cid
+	if _, err := b.Has(bg, q); err == nil {
+		return "Has on a closed read-only blockstore returned a result"
+	}
+	if _, err := b.Get(bg, q); err == nil {
+		return "Get on a closed read-only blockstore returned a result"
+	}
+	if _, err := b.GetSize(bg, q); err == nil {
+		return "GetSize on a closed read-only blockstore returned a result"
+	}
+	if _, err := b.AllKeysChan(bg); err == nil {
+		return "AllKeysChan on a closed read-only blockstore returned a channel"
+	}
+	return ""
 }
 
 func b2i(b bool) int {
